@@ -146,6 +146,50 @@ static void check_step(uint32_t log_from) {
     }
 }
 
+#ifdef ORDER_CHECK
+/* C03-O1 (crash consistency of the write order): an in-place write stores a pointer only to a chunk that was completely in the file
+ * when that write was issued, so that a writer stopped between any two backend writes leaves no pointer to a missing or partial chunk. */
+static bool complete_at(uint64_t v, int64_t fend) {
+    bool ok = false;
+    for (unsigned k = 0; k < MAXCH; ++k) {
+        if (k < n_ch && (uint64_t) ch_off[k] == v && ch_off[k] + 32 + (int64_t) on_disk(ch_pay[k]) <= fend) {
+            ok = true;
+        }
+    }
+    return ok;
+}
+
+static void check_order(uint32_t log_from) {
+    scan_chunks();
+    for (uint32_t i = 0; i < MEMBK_LOG; ++i) {
+        if (i >= log_from && i < membk_n_writes) {
+            int64_t pos = membk_log[i].pos;
+            uint32_t cnt = membk_log[i].count;
+            int64_t fend = membk_log[i].fend_before;
+            if (cnt > 0 && pos >= 32 && pos + (int64_t) cnt <= fend) {          /* in-place write behind the file header */
+                for (unsigned k = 0; k < MAXCH; ++k) {
+                    if (k < n_ch) {
+                        if (pos == ch_off[k] && cnt == 32) {
+                            uint64_t nx;
+                            memcpy(&nx, membk_file + pos, 8);
+                            CHECK(nx == 0 || complete_at(nx, fend), "a header rewrite links (item_next) only to a chunk that is already completely in the file");
+                        }
+                        bool is_head = ((ch_tag[k] & 0x27) == (0x20 | JLS_TRACK_CHUNK_HEAD));
+                        if (is_head && pos == ch_off[k] + 32 && cnt == ch_pay[k]) {
+                            for (unsigned e = 0; e < JLS_SUMMARY_LEVEL_COUNT; ++e) {
+                                uint64_t v;
+                                memcpy(&v, membk_file + pos + 8 * e, 8);
+                                CHECK(v == 0 || complete_at(v, fend), "a head-table rewrite points only to chunks that are already completely in the file");
+                            }
+                        }
+                    }
+                }
+            }
+        }
+    }
+}
+#endif
+
 void harness(void) {
     membk_reset();
     struct jls_wr_s * wr = (struct jls_wr_s *) &core;
@@ -168,6 +212,9 @@ void harness(void) {
         .annotation_decimate_factor = 10, .utc_decimate_factor = 10, .name = "s", .units = "V"};
     CHECK(0 == jls_wr_signal_def(wr, &sig1), "signal 1 with its FSR/annotation/UTC tracks");
 
+#ifdef ORDER_CHECK
+    check_order(0);          /* the writes of open + definitions */
+#endif
     for (unsigned step = 0; step < KOPS; ++step) {
         memcpy(before, membk_file, MEMBK_SIZE);
         len_before = membk_len;
@@ -213,7 +260,11 @@ void harness(void) {
             }
             default: jls_wr_annotation(wr, 0, 7 + step, 2.0f, JLS_ANNOTATION_TYPE_TEXT, 1, JLS_STORAGE_TYPE_BINARY, pay, plen); break;
         }
+#ifdef ORDER_CHECK
+        check_order(log_from);
+#else
         check_step(log_from);
+#endif
     }
     WITNESS_END();
 }
